@@ -241,6 +241,8 @@ func (x *Exec) evalIdent(st *State, id *ast.Ident) *Term {
 		// function value
 		name := "fn!" + sanitize(shortPkg(o.Pkg().Path())+"."+o.Name())
 		x.consts[name] = SInt
+		x.fnSyms[name] = o
+		x.axiom(Gt(Sym(name, SInt), IntLit(0)))
 		return Sym(name, SInt)
 	case *types.Const:
 		return x.constTerm(o.Val(), o.Type())
